@@ -31,6 +31,7 @@ def run(ctx, db, tier):
     cancel(ctx, db)
     interval_ident(ctx, db)
     by_value(ctx, db)
+    destructor_joins(ctx, db)
 
 
 def op(ev):
@@ -357,3 +358,31 @@ def by_value(ctx, db):
     fl2 = next((x for x in (sc[0]['fields'] if sc else []) if x['name'] == '_scheduled'), None)
     t2 = (fl2 or {}).get('canon_type') or ''
     ctx.ob(rid, 'cocls::scheduler', (sc[0]['loc'] if sc else '?'), fl2 is not None and 'vector<' in t2 and 'SchItem' in t2 and '*' not in t2, '_scheduled owns its entries (%s)' % t2[:80], desc='_scheduled does not own its entries')
+
+
+def destructor_joins(ctx, db):
+    rid = ctx.rule('C12.destructor-stops-worker', 'ORDER', '~scheduler: when a background worker was started, the stop is requested and the worker\'s completion future is waited for, in that order, '
+                   'before the members (heap, mutex, condition variable) are destroyed', floor=1)
+    T = Tracer(db, depth=0)
+    for f in db.need('cocls::scheduler::~scheduler')[:1]:
+        bad = None; n = 0
+        for tr in [t for t in T.traces(f) if live(t)]:
+            started = None
+            for i, it in enumerate(tr):
+                if it.k == 'branch':
+                    ce = cond_event(tr, i)
+                    if ce is not None and ce.k == 'call' and norm(ce.get('callee') or '').endswith('optional::has_value') or (ce is not None and ce.k == 'call' and 'optional' in norm(ce.get('callee') or '') and 'bool' in norm(ce.get('callee') or '')):
+                        started = bool(it.val)
+            rq = index_of(tr, lambda ev: ev.k == 'call' and norm(ev.get('callee')) == 'std::stop_source::request_stop')
+            wt = index_of(tr, lambda ev: ev.k == 'call' and norm(ev.get('callee')) in ('cocls::future::wait', 'cocls::future::sync', 'cocls::future::join', 'cocls::future::force_wait', 'cocls::future::force_sync'))
+            if started is True:
+                n += 1
+                if not (0 <= rq < wt):
+                    bad = bad or 'a started worker is not stopped and then waited for (it would run on a destroyed scheduler)'
+            elif started is False and (rq >= 0 or wt >= 0):
+                bad = bad or 'stop/wait on a scheduler that never started a worker'
+            elif started is None:
+                bad = bad or 'the destructor does not test whether a worker was started'
+        if n == 0 and not bad:
+            bad = 'no path stops a started worker'
+        ctx.ob(rid, f, f['key'], bad is None, 'request_stop then wait iff a worker was started' + ('' if not bad else ' -- ' + bad), desc=bad)
